@@ -259,6 +259,7 @@ func (p *parameterBuilder) buildFromField(fld *types.Var, tpe types.Type, typabl
 		if err := sb.buildFromType(ftpe.Elem(), schemaTypable{schema, typable.Level() + 1}); err != nil {
 			return err
 		}
+		p.postDecls = append(p.postDecls, sb.postDecls...)
 		return nil
 	case *types.Named:
 		if decl, found := p.ctx.DeclForType(ftpe.Obj().Type()); found {
